@@ -448,6 +448,36 @@ def b2_b3_shapes(run: Run, prog: Program, cy: CyProgram, cfuncs, sites, handoffs
                         f"the buffer is not declared mode='c' and not every call site "
                         f"passes a fresh C-ordered array: a transposed/strided view "
                         f"would be read with row-major offsets")
+            # --- B10: the array whose data pointer is taken is an array (a typed
+            # buffer parameter accepts None unless declared `not None`, and
+            # PyArray_DATA(None) reads through a NULL/garbage object)
+            if is_param:
+                nn = bool(getattr(xt, "not_none", False))
+                how_nn = "declared `not None`"
+                if not nn:
+                    css = [s for s in sites if s.kernel is w]
+                    argi = [a for a, _ in w.args].index(x.a[0])
+
+                    def _is_array(s_):
+                        if argi >= len(s_.call.args):
+                            return False
+                        a_ = s_.call.args[argi]
+                        if isinstance(a_, ast.Name):
+                            from .idioms import single_defs
+                            a_ = single_defs(s_.func.node).get(a_.id, a_)
+                        return isinstance(a_, ast.Call) and (
+                            ast.unparse(a_.func) == "to_cy" or
+                            ast.unparse(a_.func).startswith("np."))
+                    nn = bool(css) and all(_is_array(s_) for s_ in css)
+                    how_nn = "every call site passes to_cy(...) / a numpy constructor"
+                run.oblige("B10", inst, nn, sample={"how": how_nn})
+                if not nn:
+                    run.add("B10", f"{w.name}/{h.cname}/{cn}/none", w.where,
+                            f"{w.name} takes the data pointer of `{x.a[0]}` "
+                            f"(PyArray_DATA) but the parameter is not declared `not None` "
+                            f"and not every call site passes a freshly made array: None "
+                            f"is accepted by the typed-buffer check and its data pointer "
+                            f"is read from a non-array object")
             # --- shapes for B5
             if local is not None:
                 dims, kind = local
@@ -1429,6 +1459,7 @@ def check(run: Run, prog: Program, cy: CyProgram, sites):
     run.rule("B2", "every raw pointer hand-off casts to an element type of the "
              "array's item size, and the C definition uses that width")
     run.rule("B3", "arrays whose raw pointer is handed to C are C-contiguous")
+    run.rule("B10", "an array parameter whose raw data pointer is taken cannot be None")
     run.rule("B9", "no stack allocation (alloca) whose size grows with an extent of the "
              "data")
     run.rule("B4", "every extent the C code uses is tied to the shape of the buffer it "
